@@ -33,7 +33,12 @@ def gen_case(rng, cid):
             if h:
                 used.add(h)
             k = rng.randint(1, 3)
-            if x < 0.3:
+            if x < 0.05:
+                # a streamed write whose store FAILS (empty key) while the caller keeps writing: the error is handed from
+                # the storing goroutine to the writer
+                v += 1
+                grp.append("set %d 0 %d 5000 c100,100,2048,100" % (h, v))
+            elif x < 0.3:
                 v += 1
                 grp.append("set %d %d %d %d %s" % (h, k, v, rng.choice([1, 5, 2049, 5000]), rng.choice(["s", "r100", "c1"])))
             elif x < 0.4:
